@@ -455,7 +455,9 @@ def gen_info(r, fv):
 
 def gen_kerning_groups(r, fv, glyph_names):
     names = (glyph_names or []) + ["a", "A", "B.alt", "é"]
-    if fv >= 3:
+    if fv >= 3 or r.random() < 0.3:
+        # (group names are free text in UFO 1/2 too: a font that already uses the UFO 3 names is valid there,
+        # and the reader's up-conversion must leave such groups alone)
         g1, g2 = "public.kern1." + r.choice(["O", "é", "A B"]), "public.kern2." + r.choice(["O", "n"])
     else:
         g1, g2 = "@MMK_L_" + r.choice(["O", "A"]), "@MMK_R_" + r.choice(["O", "n"])
@@ -702,8 +704,9 @@ def _exec_ufo(ctx, h, holder):
             if layer in model["layerinfo"]:
                 o = GObj()
                 gs.readLayerInfo(o)
-                want = model["layerinfo"][layer]
-                got = {k: getattr(o, k, None) for k in want}
+                # every attribute, also the ones the last write did not set: a withdrawn colour or lib must be gone
+                want = {k: model["layerinfo"][layer].get(k) or None for k in ("color", "lib")}
+                got = {k: getattr(o, k, None) or None for k in ("color", "lib")}
                 if got != want:
                     fail("layerinfo-differs", "layer %r: %r vs %r" % (layer, got, want))
         if model["info"] is not None:
